@@ -44,6 +44,11 @@ def agg_sites(body, adt, variant):
     return out
 
 
+def is_chars(e):
+    """e mentions an iteration over the characters of a text"""
+    return mentions(e, lambda x: x[0] == "iter" and x[2] in ("chars", "char_indices"))
+
+
 def is_byte_len(e, sparam):
     """expression is a byte length of the input text"""
     core = strip_load(e)
@@ -62,12 +67,28 @@ def is_char_count(e):
     core = strip_load(e)
     if core[0] == "call":
         last = core[1].split("::")[-1]
-        if last == "count" and core[2] and mentions(core[2][0], lambda x: x[0] == "iter" and x[2] in ("chars", "char_indices")):
+        if last == "count" and core[2] and is_chars(core[2][0]) and not iter_adaptors(core[2][0]):
             return True
-        if last == "len" and core[2] and mentions(core[2][0], lambda x: x[0] == "call" and x[1].split("::")[-1] == "collect"
-                                                   and mentions(x, lambda y: y[0] == "iter" and y[2] == "chars")):
+        if last == "len" and core[2] and strip_load(core[2][0])[0] == "call" and strip_load(core[2][0])[1].split("::")[-1] == "collect" \
+                and strip_load(core[2][0])[2] and strip_load(strip_load(core[2][0])[2][0])[0] == "iter" and is_chars(strip_load(core[2][0])[2][0]):
             return True
     return False
+
+
+def next_of_chars(f):
+    """fact `discr(next(<plain chars iterator>)) ∈ S` -> (iterator, site, S)"""
+    if f[0] != "in":
+        return None
+    d = strip_load(f[1])
+    if d[0] != "discr":
+        return None
+    n = strip_load(d[1])
+    if n[0] != "next":
+        return None
+    it = strip_load(n[1])
+    if it[0] == "iter" and it[2] == "chars":
+        return (strip_sites(it), n[2], f[2])
+    return None
 
 
 def lb1(F, R):
@@ -82,6 +103,24 @@ def lb1(F, R):
         facts = b.facts_at(site)
         byte_f = [f for f in facts if f[0] in ("in", "notin", "cmp") and any(is_byte_len(x, None) for x in ([f[1]] if f[0] != "cmp" else [f[2], f[3]]))]
         char_f = [f for f in facts if f[0] == "in" and f[2] == frozenset([1]) and is_char_count(f[1])]
+        # `match (chars.next(), chars.next()) { (Some(c), None) => ..`: two successive next() on one plain chars iterator,
+        # the first Some and the second None, is a character count of exactly 1
+        nx = [x for x in (next_of_chars(f) for f in facts) if x is not None]
+        somes = [x for x in nx if x[2] == frozenset(["Some"])]
+        nones = [x for x in nx if x[2] == frozenset(["None"])]
+        if len(somes) == 1 and len(nones) == 1 and somes[0][0] == nones[0][0] and somes[0][1] != nones[0][1]:
+            dom = b.dom()
+            nexts = []
+            for csite, t in b.calls():
+                if t["callee"].get("name") == "next" and csite[0] in dom[site[0]]:
+                    a0 = strip_load(b.call_args(t, csite)[0])
+                    v0 = strip_load(deref_addr(b, a0))
+                    if v0[0] == "iter" and strip_sites(v0) == somes[0][0]:
+                        nexts.append((csite[0], a0[1] if a0[0] == "addr" else None))
+            # the same iterator variable in both calls, and no other next() on it before
+            if sorted(x[0] for x in nexts) == sorted([somes[0][1], nones[0][1]]) and somes[0][1] in dom[nones[0][1]] and \
+                    len(set(x[1] for x in nexts)) == 1 and nexts[0][1] is not None:
+                char_f = char_f or [("two-next", somes[0], nones[0])]
         detail = {"guards": [show(f, b) for f in sorted(facts, key=repr)]}
         if byte_f:
             R.bad("LB1", "LB1/Label::from_str/single-char-decided-on-bytes", b.where(site),
@@ -96,9 +135,16 @@ def lb1(F, R):
         # payload is the first char of the text
         fs = dict(e[3])
         pay = strip_load(fs.get("0", ("?",)))
-        if not mentions(pay, lambda x: x[0] == "iter" and x[2] == "chars"):
+        if not is_chars(pay):
             R.bad("LB1", "LB1/Label::from_str/greek-payload", b.where(site), "Label::Greek does not carry a character of the text",
                   {"payload": show(pay, b)})
+
+
+def unwrap_casts(x):
+    x = strip_load(x)
+    while x[0] == "cast":
+        x = strip_load(x[2])
+    return x
 
 
 def lb2(F, R):
@@ -106,68 +152,191 @@ def lb2(F, R):
     if b is None:
         R.missing("LB2", "<Label as FromStr>::from_str")
         return
-    stores = []
-    for site, s in b.writes():
-        loc = strip_load(b.expr_place(s["lhs"], site))
-        if loc[0] == "elem" and s["lhs"]["ty"] == "char":
-            stores.append((site, loc, b.expr_rvalue(s["rv"], site)))
+    raw = Collector(F).collect(b)
     strs = agg_sites(b, "Label", "Str")
     R.floor("LB2", "constructions of Label::Str in from_str", len(strs), 1, b.where())
+    arr = None
+    for site, e in strs:
+        a = strip_load(dict(e[3]).get("0", ("?",)))
+        if a[0] != "repeat":
+            R.bad("LB2", "LB2/Label::from_str/str-payload", b.where(site), "Label::Str does not carry the filled array", {"payload": show(a, b)})
+        else:
+            arr = a
+    if arr is None:
+        return
+    if str(arr[2]) != "8":
+        R.missing("LB2", "8-slot text array", b.where())
+        return
+    small = frozenset(range(0, 8))
+    upto = frozenset(range(0, 9))
+
+    def is_arr(x):
+        x = unwrap_casts(x)
+        if x[0] == "addr":
+            try:
+                x = strip_load(deref_addr(b, x))
+            except Exception:
+                return False
+        return strip_sites(x) == strip_sites(arr)
+
+    def arr_len(x):
+        x = strip_load(x)
+        return x[0] == "call" and x[1].split("::")[-1] == "len" and x[2] and is_arr(x[2][0])
+
+    def get_mut_of(x):
+        """x = <arr>.get_mut(i) -> i"""
+        x = strip_load(x)
+        if x[0] == "call" and x[1].split("::")[-1] == "get_mut" and len(x[2]) == 2 and is_arr(x[2][0]):
+            return x[2][1]
+        return None
+
+    def slots_iter(x):
+        return mentions(x, lambda y: y[0] == "iter" and y[2] == "iter_mut" and is_arr(y[1]))
+    # ---- stores of characters into the array
+    stores = []
+    for e in raw:
+        if e.kind != "write":
+            continue
+        loc = strip_load(e.loc)
+        if loc[0] == "elem" and is_arr(loc[1]):
+            stores.append((e, "index", loc[2]))
+        elif loc[0] == "some" and get_mut_of(loc[1]) is not None:
+            stores.append((e, "get_mut", get_mut_of(loc[1])))
+        elif mentions(loc, lambda x: x[0] == "item" and slots_iter(x[1])):
+            stores.append((e, "iter_mut", None))
     if not stores:
         R.missing("LB2", "store of a character into the text array", b.where())
         return
-    for site, loc, val in stores:
-        idx = loc[2]
-        facts = b.facts_at(site)
-        bounded = None
+    # every place an Err is built (in from_str or in a helper inlined into it), with what is known there
+    errs = []
+    for site, kind, st in b.sites():
+        if kind == "stmt" and st["k"] == "assign" and st["rv"]["k"] == "aggregate" and st["rv"].get("adt") == "Result" and st["rv"].get("variant") == "Err":
+            errs.append(b.facts_at(site))
+    for e in raw:
+        if e.kind == "call" and e.name in ("Err",):
+            errs.append(e.facts)
+
+    def count_rejected(facts):
+        """the facts say: the text has more than 8 characters"""
         for f in facts:
-            if f[0] == "in" and strip_sites(f[1]) == strip_sites(idx) and all(isinstance(v, int) and 0 <= v <= 7 for v in f[2]):
-                bounded = f
-        detail = {"index": show(idx, b), "guards": [show(f, b) for f in sorted(facts, key=repr)]}
-        if bounded is None:
-            R.bad("LB2", "LB2/Label::from_str/store-not-bounded", b.where(site),
-                  "a character is stored into the 8-slot array at an index that is not tested to be below 8: an over-long "
-                  "text panics with an out-of-bounds index instead of returning Err", detail)
+            if f[0] == "notin" and f[2] == upto and is_char_count(f[1]):
+                return True
+            if f[0] == "cmp" and f[1] == "<" and is_char_count(f[3]) and (arr_len(f[2]) or strip_load(f[2]) == ("const", 8)):
+                return True
+        return False
+    for e, kind, idx in stores:
+        facts = e.facts
+        val = e.val
+        detail = {"store": kind, "index": show(idx, e.body) if idx is not None else None,
+                  "guards": [show(f, e.body) for f in sorted(facts, key=repr) if "Level" not in repr(f)][:8]}
+        # (1) the store cannot leave the array, and all 8 slots are usable
+        if kind == "index":
+            bounded = None
+            for f in facts:
+                if f[0] == "in" and strip_sites(f[1]) == strip_sites(idx) and f[2] <= small:
+                    bounded = f
+            if bounded is None:
+                R.bad("LB2", "LB2/Label::from_str/store-not-bounded", e.where(),
+                      "a character is stored into the 8-slot array at an index that is not tested to be below 8: an over-long "
+                      "text panics with an out-of-bounds index instead of returning Err", detail)
+                continue
+            if bounded[2] != small:
+                R.bad("LB2", "LB2/Label::from_str/capacity-short", e.where(),
+                      "characters are only stored at indexes %s: a text of 8 characters is not accepted" % sorted(bounded[2]), detail)
+                continue
+        # (2) the characters stored are all the characters of the text, the i-th one in the i-th slot
+        item = None
+        for x in list(walk(val)) + list(walk(e.loc)):
+            if x[0] == "item" and is_chars(x[1]):
+                item = x
+        if item is None:
+            R.bad("LB2", "LB2/Label::from_str/stored-char-not-from-text", e.where(), "the character stored is not a character of the text",
+                  {"value": show(val, e.body)})
             continue
-        # the rejecting edge returns Err
-        rej = False
-        for d in b.defs().get(0, []):
-            dsite = (d[0], d[1])
-            dfacts = b.facts_at(dsite)
-            if any(f[0] == "notin" and strip_sites(f[1]) == strip_sites(idx) for f in dfacts) or \
-                    any(f[0] == "in" and strip_sites(f[1]) == strip_sites(idx) and not (f[2] & bounded[2]) for f in dfacts):
-                e = b.expr_rvalue(d[3], dsite) if d[2] == "assign" else b.expr_call(d[3], dsite)
-                if e[0] == "agg" and e[2] == "Err":
-                    rej = True
-        # every character is visited: no take/skip on the enumerated chain
-        it = None
-        core = strip_load(idx)
-        if core[0] == "field" and strip_load(core[1])[0] == "item":
-            it = strip_load(core[1])[1]
-        ads = [a for a, _ in iter_adaptors(it)] if it is not None else ["?"]
-        src_ok = it is not None and mentions(it, lambda x: x[0] == "iter" and x[2] == "chars")
-        if not rej:
-            R.bad("LB2", "LB2/Label::from_str/overlong-not-rejected", b.where(site),
-                  "a text longer than 8 characters is not rejected with Err on the path that refuses to store the 9th character",
-                  detail)
-        elif [a for a in ads if a not in ("enumerate", "collect")] or not src_ok:
-            R.bad("LB2", "LB2/Label::from_str/chars-not-all-visited", b.where(site),
+        ads = [a for a, _ in iter_adaptors(item[1])]
+        v = strip_load(val)
+        byref = None
+        if kind in ("index", "get_mut"):
+            i0 = strip_load(idx)
+            pair = v[0] == "field" and v[2] == "(tuple)::1" and i0[0] == "field" and i0[2] == "(tuple)::0" and \
+                strip_sites(strip_load(v[1])) == strip_sites(strip_load(i0[1])) and strip_load(v[1])[0] == "item"
+            allowed = ("enumerate", "collect")
+        else:
+            # zip of the slots with the characters: both sides of one zip item
+            loc = strip_load(e.loc)
+            both = v[0] == "field" and loc[0] == "field" and strip_sites(strip_load(v[1])) == strip_sites(strip_load(loc[1])) and \
+                strip_load(v[1])[0] == "item"
+            z = strip_load(strip_load(v[1])[1]) if both else None
+            both = both and z[0] == "adapt" and z[1] == "zip" and len(z[3]) == 1
+            if both and slots_iter(z[3][0]) and not slots_iter(z[2]):
+                R.bad("LB2", "LB2/Label::from_str/zip-consumes-a-character", e.where(),
+                      "the characters are zipped with the slots characters-first: when the slots run out the zip has already taken "
+                      "(and dropped) the 9th character, so a text of exactly 9 characters is accepted and truncated", detail)
+                continue
+            pair = both and v[2] == "(tuple)::1" and loc[2] == "(tuple)::0" and strip_load(z[2])[0] == "iter" and slots_iter(z[2]) and is_chars(z[3][0])
+            ads = []
+            if pair:
+                c = strip_load(z[3][0])
+                if c[0] == "call" and c[1].split("::")[-1] == "by_ref" and strip_load(c[2][0])[0] == "iter":
+                    byref = c        # slots.zip(chars.by_ref()): the zip asks the slots first, so no character is lost
+                elif c[0] == "call" and c[1].split("::")[-1] == "collect" and strip_load(c[2][0])[0] in ("iter", "adapt"):
+                    ads = [a for a, _ in iter_adaptors(c[2][0])]
+                elif c[0] in ("iter", "adapt"):
+                    ads = [a for a, _ in iter_adaptors(c)]
+                else:
+                    pair = False
+            allowed = ("collect",)
+        if [a for a in ads if a not in allowed]:
+            R.bad("LB2", "LB2/Label::from_str/chars-not-all-visited", e.where(),
                   "the characters stored are not all characters of the text (adaptors %s): an over-long text is truncated "
                   "instead of rejected, or characters are dropped" % ads, detail)
+            continue
+        if not pair:
+            R.bad("LB2", "LB2/Label::from_str/stored-char-not-the-enumerated-one", e.where(),
+                  "the character stored at index i is not the i-th character of the text", {"value": show(val, e.body), "slot": show(e.loc, e.body)})
+            continue
+        # (3) a 9th character gives Err
+        rej = False
+        for efacts in errs:
+            if count_rejected(efacts):
+                rej = True
+            for f in efacts:
+                if kind == "index" and f[0] in ("in", "notin") and strip_sites(f[1]) == strip_sites(idx):
+                    if (f[0] == "notin" and f[2] == small) or (f[0] == "in" and not (f[2] & small)):
+                        rej = True
+                if kind == "get_mut" and f[0] == "in" and f[2] == frozenset(["None"]) and strip_load(f[1])[0] == "discr":
+                    gi = get_mut_of(strip_load(f[1])[1])
+                    if gi is not None and strip_sites(strip_load(gi)) == strip_sites(strip_load(idx)):
+                        rej = True
+        if kind == "iter_mut" and byref is None:
+            # zip stops silently at the shorter side: the store itself must be known to happen only when the text fits
+            fits = any((f[0] == "in" and f[2] <= upto and is_char_count(f[1])) or
+                       (f[0] == "cmp" and f[1] == "<=" and is_char_count(f[2]) and (arr_len(f[3]) or strip_load(f[3]) == ("const", 8)))
+                       for f in facts)
+            rej = rej and fits
+        if kind == "iter_mut" and byref is not None:
+            # after the zip loop: `if chars.next().is_some() { return Err }` on the very iterator the zip borrowed
+            rej = False
+            if e.body is b:
+                def it_var(bb):
+                    t = b.blocks[bb]["term"]
+                    if t["k"] != "call" or not t["args"]:
+                        return None
+                    a0 = strip_load(b.call_args(t, (bb, b.term_idx(bb)))[0])
+                    return a0[1] if a0[0] == "addr" else None
+                dom = b.dom()
+                for efacts in errs:
+                    for f in efacts:
+                        n = next_of_chars(f)
+                        if n is not None and n[2] == frozenset(["Some"]) and isinstance(byref[3], int) and isinstance(n[1], int) and \
+                                it_var(n[1]) is not None and it_var(n[1]) == it_var(byref[3]) and byref[3] in dom[n[1]]:
+                            rej = True
+        if not rej:
+            R.bad("LB2", "LB2/Label::from_str/overlong-not-rejected", e.where(),
+                  "a text longer than 8 characters is not rejected with Err on the path that refuses to store the 9th character",
+                  detail)
         else:
-            # value stored is the enumerated character
-            v = strip_load(val)
-            if not (v[0] == "field" and v[2] == "(tuple)::1" and strip_sites(strip_load(v[1])) == strip_sites(strip_load(core[1]))):
-                R.bad("LB2", "LB2/Label::from_str/stored-char-not-the-enumerated-one", b.where(site),
-                      "the character stored at index i is not the i-th character of the text", {"value": show(val, b)})
-            else:
-                R.ok("LB2", b.where(site), "a[i] := i-th char, i ∈ 0..=7 on the storing edge, Err on the other edge, all chars visited", detail)
-    # the array handed to Label::Str is the one filled
-    for site, e in strs:
-        fs = dict(e[3])
-        arr = strip_load(fs.get("0", ("?",)))
-        if not (arr[0] == "repeat"):
-            R.bad("LB2", "LB2/Label::from_str/str-payload", b.where(site), "Label::Str does not carry the filled array", {"payload": show(arr, b)})
+            R.ok("LB2", e.where(), "slot i := i-th character of the text, the store stays inside the 8 slots, a 9th character gives Err", detail)
 
 
 def pad_char(b):
@@ -184,6 +353,7 @@ def lb3(F, R):
     if b is None:
         R.missing("LB3", "<Label as FromStr>::from_str")
         return
+    raw = Collector(F).collect(b)
     alphas = agg_sites(b, "Label", "Alpha")
     R.floor("LB3", "constructions of Label::Alpha in from_str", len(alphas), 1, b.where())
     for site, e in alphas:
@@ -206,9 +376,23 @@ def lb3(F, R):
             continue
         # the text parsed is the input without its first character
         src = parse[0][2][0] if parse[0][2] else None
-        skip1 = src is not None and any(x[0] == "adapt" and x[1] == "skip" and strip_load(x[3][0]) == ("const", 1) and
-                                        mentions(x[2], lambda y: y[0] == "iter" and y[2] == "chars") for x in walk(src))
-        strip = src is not None and mentions(src, lambda x: x[0] == "call" and x[1].split("::")[-1] in ("strip_prefix",))
+        srcs = [src] if src is not None else []
+        # a String built empty and filled by push/extend calls: what is pushed
+        for x in (list(walk(src)) if src is not None else []):
+            if x[0] == "call" and x[1].split("::")[-1] in ("new", "with_capacity") and "String" in x[1]:
+                pushes = [p for p in raw if p.kind == "call" and p.name in ("push", "push_str", "extend") and p.args and
+                          strip_sites(strip_load(p.args[0])) == strip_sites(x)]
+                # every character pushed unconditionally (apart from the iteration itself)
+                if len(pushes) == 1 and len(pushes[0].args) == 2:
+                    pv = strip_load(pushes[0].args[1])
+                    own = [f for f in pushes[0].facts if f not in facts and not (strip_load(f[1])[0] == "discr" and strip_load(strip_load(f[1])[1])[0] == "next")]
+                    if pv[0] == "item" and not own:
+                        srcs.append(pv[1])
+                    elif pv[0] in ("iter", "adapt") and not own:
+                        srcs.append(pv)
+        skip1 = any(x[0] == "adapt" and x[1] == "skip" and strip_load(x[3][0]) == ("const", 1) and strip_load(x[2])[0] == "iter" and
+                    strip_load(x[2])[2] == "chars" for sx in srcs for x in walk(sx))
+        strip = any(mentions(sx, lambda x: x[0] == "call" and x[1].split("::")[-1] in ("strip_prefix",)) for sx in srcs)
         if not (skip1 or strip):
             R.bad("LB3", "LB3/Label::from_str/alpha-tail", b.where(site),
                   "the number parsed is not the text after the alpha sign (exactly one character skipped)", {"parsed": show(src, b) if src else None})
@@ -220,15 +404,61 @@ def alpha_prefix(b):
     """char tested by starts_with on the Alpha path of from_str"""
     for site, e in agg_sites(b, "Label", "Alpha"):
         for f in b.facts_at(site):
+            c = None
             if f[0] == "bool" and f[2] is True:
                 c = strip_load(f[1])
-                if c[0] == "call" and c[1].split("::")[-1] == "starts_with" and len(c[2]) > 1:
-                    a = strip_load(c[2][1])
-                    if a[0] == "const":
-                        return chr(a[1])
-                    if a[0] == "str":
-                        return a[1]
+                if not (c[0] == "call" and c[1].split("::")[-1] == "starts_with" and len(c[2]) > 1):
+                    c = None
+            elif f[0] == "in" and f[2] == frozenset(["Some"]) and strip_load(f[1])[0] == "discr":
+                c = strip_load(strip_load(f[1])[1])
+                if not (c[0] == "call" and c[1].split("::")[-1] == "strip_prefix" and len(c[2]) > 1):
+                    c = None
+            if c is not None:
+                a = strip_load(c[2][1])
+                if a[0] == "const":
+                    return chr(a[1])
+                if a[0] == "str":
+                    return a[1]
     return None
+
+
+def printed_text(e):
+    """for a fmt::Arguments::new(template, args) call event: the printed pieces, constant arguments substituted:
+    a list of str (literal text) and ("arg", expr) items; None if the template cannot be decoded"""
+    a = strip_load(e.args[0])
+    if a[0] != "constx":
+        return None
+    t = decode_template(a[1])
+    if t is None or not t[2]:
+        return None
+    argv = unwrap_casts(e.args[1]) if len(e.args) > 1 else ("array", ())
+    items = list(argv[1]) if argv[0] == "array" else []
+    k = 0
+    out = []
+    for p in t[0]:
+        if p is not None:
+            out.append(p)
+            continue
+        val = ("arg", ("?",))
+        if k < len(items):
+            it = strip_load(items[k])
+            if it[0] == "call" and it[2] and it[1].split("::")[-1] == "new_display":
+                v = strip_load(it[2][0])
+                if v[0] == "const" and isinstance(v[1], int) and 0 <= v[1] < 0x110000:     # a char constant (named const such as ALPHA)
+                    val = chr(v[1])
+                elif v[0] == "str":
+                    val = v[1]
+                else:
+                    val = ("arg", v)
+        out.append(val)
+        k += 1
+    merged = []
+    for x in out:
+        if isinstance(x, str) and merged and isinstance(merged[-1], str):
+            merged[-1] += x
+        else:
+            merged.append(x)
+    return merged
 
 
 def lb45(F, R):
@@ -267,6 +497,16 @@ def lb45(F, R):
             ads = iter_adaptors(e.args[0])
             if src is not None and not ads:
                 str_arm_ok = True
+        # the same as a loop: `for c in a { if c == PAD { continue } out.push(c) }`
+        if e.kind == "call" and e.name in ("push", "write_char") and len(e.args) > 1 and \
+                any(f[0] == "in" and f[2] == frozenset(["Str"]) for f in e.facts):
+            items = [x for x in walk(e.args[1]) if x[0] == "item"]
+            if items and mentions(items[0][1], lambda x: x[0] == "vfield" and x[2] == "Str") and not iter_adaptors(items[0][1]):
+                on_item = [f for f in e.facts if mentions(f, lambda x: x == items[0]) and strip_load(f[1])[0] != "discr"]
+                for f in on_item:
+                    if f[0] == "notin" and len(f[2]) == 1 and strip_sites(strip_load(f[1])) == strip_sites(items[0]):
+                        filt = next(iter(f[2]))
+                        str_arm_ok = len(on_item) == 1
     if pad is None:
         R.missing("LB4", "padding constant of the text array in from_str", fs.where())
     elif filt is None:
@@ -282,32 +522,27 @@ def lb45(F, R):
         R.ok("LB4", dbg.where(), "padding written by from_str (%r) is exactly what Debug filters out" % chr(pad))
     # alpha prefix agreement
     pre = alpha_prefix(fs)
-    tpl = None
+    txt = None
     for e in raw:
         if e.kind == "call" and e.name == "new" and "Arguments" in e.path and any(f[0] == "in" and f[2] == frozenset(["Alpha"]) for f in e.facts):
-            a = strip_load(e.args[0])
-            if a[0] == "constx":
-                tpl = decode_template(a[1])
-            arg_ok = mentions(e.args[1], lambda x: x[0] == "vfield" and x[2] == "Alpha")
+            txt = printed_text(e)
+    shown = [x if isinstance(x, str) else "{}" for x in (txt or [])]
     if pre is None:
         R.missing("LB5", "alpha prefix test on the Alpha path of from_str", fs.where())
-    elif tpl is None or not tpl[2]:
+    elif txt is None:
         R.bad("LB5", "LB5/Label::fmt(Debug)/alpha-template-unreadable", dbg.where(), "cannot establish LB5: format template of the Alpha arm not decodable")
     else:
-        pieces, nph, _ = tpl
-        if pieces[:1] == [pre] and pieces[1:] == [None] and arg_ok:
+        if len(txt) == 2 and txt[0] == pre and isinstance(txt[1], tuple) and mentions(txt[1][1], lambda x: x[0] == "vfield" and x[2] == "Alpha"):
             R.ok("LB5", dbg.where(), "Debug prints an alpha label as %r followed by its index; from_str tests the same prefix" % pre)
         else:
             R.bad("LB5", "LB5/Label/alpha-prefix-disagree", dbg.where(),
                   "from_str recognises an alpha label by the prefix %r but Debug prints it as %r: the printed form does not parse back"
-                  % (pre, pieces))
+                  % (pre, shown))
     # Greek arm prints exactly the character
     gt = None
     for e in raw:
         if e.kind == "call" and e.name == "new" and "Arguments" in e.path and any(f[0] == "in" and f[2] == frozenset(["Greek"]) for f in e.facts):
-            a = strip_load(e.args[0])
-            if a[0] == "constx":
-                gt = (decode_template(a[1]), mentions(e.args[1], lambda x: x[0] == "vfield" and x[2] == "Greek"))
+            gt = printed_text(e) or []
     if gt is None:
         # accepted alternative: write_char / to_string of the payload
         alt = [e for e in raw if e.kind == "call" and any(f[0] == "in" and f[2] == frozenset(["Greek"]) for f in e.facts)
@@ -317,12 +552,12 @@ def lb45(F, R):
         else:
             R.missing("LB5", "Greek arm of Debug", dbg.where())
     else:
-        t, argok = gt
-        if t and t[2] and t[0] == [None] and argok:
+        if len(gt) == 1 and isinstance(gt[0], tuple) and mentions(gt[0][1], lambda x: x[0] == "vfield" and x[2] == "Greek"):
             R.ok("LB5", dbg.where(), "Greek arm prints exactly its character")
         else:
             R.bad("LB5", "LB5/Label::fmt(Debug)/greek-arm-decorated", dbg.where(),
-                  "a single-character label is printed with extra text (%r): it does not parse back to the same label" % (t[0] if t else None))
+                  "a single-character label is printed with extra text (%r): it does not parse back to the same label"
+                  % [x if isinstance(x, str) else "{}" for x in gt])
 
 
 def lb7(F, R):
